@@ -22,6 +22,12 @@
  * Internals         sim_con_active(), sim_delayq_len(), sim_sendq_len(), sim_sendq_entry() read libcoap's
  *                   private structures through coap3/coap_libcoap_build.h.
  *
+ * Locking          libcoap's global lock is compiled in (COAP_THREAD_SAFE=1): everything in this header goes through the
+ *                   public API (which takes the lock itself; re-entry from handlers is allowed).  A harness that calls an
+ *                   internal function (`*_lkd`, coap_session_connected, coap_cancel_*, coap_dispatch, …) must bracket it with
+ *                   coap_lock_lock(ctx, return); … coap_lock_unlock(ctx);  and must NOT call public API inside that bracket.
+ *                   sim_tx_hook runs inside libcoap (lock held): only record the datagram there.
+ *
  * Every harness using this header defines  static void h_init(void)  (call sim_global_init()) and a step().
  */
 #ifndef SIM_CORE_H
